@@ -44,6 +44,8 @@ type Exec struct {
 	initialClock string // ghost clock readings at unit entry (shared constant)
 	opaqueAx  map[string]string // defining axioms of opaque predicates, by symbol
 	opaqueRec map[string]bool   // opaque predicates whose definition mentions themselves
+	lemmaAx     string // axioms generated from proved lemma functions (see lemmaax.go)
+	lemmaAxDone bool
 	cellN     int
 	typeTags  map[string]int64
 	unit      *ssa.Function
